@@ -106,8 +106,9 @@ func (t *tcpTransport) SetEncryption(ctx context.Context, e SessionEncryption) e
 		return err
 	}
 
-	// We convert existing connection to TLS
-	if err := tlsConn.Handshake(); err != nil {
+	// We convert existing connection to TLS.
+	// The handshake is interrupted if the context is cancelled, and not only at the deadline.
+	if err := tlsConn.HandshakeContext(ctx); err != nil {
 		return err
 	}
 
